@@ -2,7 +2,7 @@ SPECIFICATION SSpec
 CONSTANTS
   Repaired = TRUE
   MaxStyles = 3
-  Depth = 5
+  Depth = 4
   OwnFields <- MCOwn
   BorderFields <- MCBorder
   Values <- MCValues
